@@ -272,7 +272,6 @@ func c06InstallLsof(c *hmain.Ctx) {
 		return
 	}
 	c06LsofReady = true
-	real, _ := exec.LookPath("lsof")
 	dir := filepath.Join(c06TempDir(), "bin")
 	if err := os.MkdirAll(dir, 0o755); err != nil {
 		panic(err)
@@ -285,7 +284,22 @@ func c06InstallLsof(c *hmain.Ctx) {
 	if err := os.MkdirAll(c06NoLsofDir, 0o755); err != nil {
 		panic(err)
 	}
-	if c == nil || real == "" {
+}
+
+// c06LsofOracle: the stub's lines have the shape of the real tool's (skipped when no lsof is installed)
+func c06LsofOracle(c *hmain.Ctx) {
+	real := ""
+	for _, d := range filepath.SplitList(os.Getenv("PATH")) {
+		if d == c06LsofDir || d == "" {
+			continue
+		}
+		if st, err := os.Stat(filepath.Join(d, "lsof")); err == nil && !st.IsDir() && st.Mode()&0o111 != 0 {
+			real = filepath.Join(d, "lsof")
+			break
+		}
+	}
+	if real == "" {
+		c.W.Count("lsof-output-format: no lsof installed, oracle skipped")
 		return
 	}
 	// the stub's lines have the shape of the real tool's: header without a lower-case w, FD column = number + r / w
